@@ -87,7 +87,7 @@ META = {
     ),
     "C14": dict(
         technique="property-based metamorphic testing: permuted construction, renaming, per-node turn-rate scaling",
-        text="Per-element next states equal between a network and its transformed twin; inflow share = beta/sum(beta).",
+        text="Per-element next states equal between a network and its transformed twin (also when the turn rates of an already stepped network are rescaled in place); inflow share = beta/sum(beta).",
         note="Tolerance 1e-9 x scale.",
         ref="4/C14",
     ),
@@ -166,7 +166,7 @@ def main():
                 "name": "pbt",
                 "path": "run.py",
                 "serves_properties": [c["property_id"] for c in checks],
-                "kind_free_text": "Hypothesis 6.168 property-based / model-based stateful testing with bounded exhaustive enumeration tiers (C06, C08, C09) and, in the thorough tier, an atheris/libFuzzer coverage-guided campaign that drives the same strategies and oracles through hypothesis.fuzz_one_input; JSON cases, replay bypasses Hypothesis; committed regression cases under replays/<id>/regression_*.json are replayed by every run",
+                "kind_free_text": "Hypothesis 6.168 property-based / model-based stateful testing with bounded exhaustive enumeration tiers (C06, C08, C09) and, in the thorough tier, an atheris/libFuzzer coverage-guided campaign that drives the same strategies and oracles through hypothesis.fuzz_one_input; every run adds one shard of the same strategy and oracle executed by a `python -O` child (lib/opt_child.py); JSON cases, replay bypasses Hypothesis; committed regression cases under replays/<id>/regression_*.json are replayed by every run",
             }
         ],
         "checks": checks,
